@@ -94,6 +94,25 @@ def run(ctx, cases_override=None):
             "no rule produces it and nothing exempts it" % json.dumps(v["problems"]))
         viols.append({"sig": sig_of(v), "what": what + " - scenario %s" % json.dumps(v["sc"]), "case": cases[cid - 1], "detail": v})
     drift = ["scenario %s: %s" % (cid, json.dumps(d)[:400]) for cid, d in jd]
+    # A verdict must be reproducible: the scenarios are deterministic, so every violating scenario is executed and judged a
+    # second time on its own; what does not reproduce (transport errors while the machine's ephemeral ports or memory are
+    # exhausted by other jobs) is dropped with a note, never reported.
+    if viols and cases_override is None:
+        vcases, seen_sig = [], set()
+        for v in viols:
+            if v["sig"] not in seen_sig:
+                seen_sig.add(v["sig"])
+                vcases.append(v["case"])
+        cp2 = write_ndjson(ctx.path("c16_recheck_cases.ndjson"), vcases)
+        tp2 = ctx.path("c16_recheck_trace.ndjson")
+        ctx.vh("exec-c16", cp2, tp2, timeout=1200)
+        jv2, _, _ = judge(ctx, read_ndjson(tp2))
+        again = {sig_of(v) for _, v in jv2}
+        dropped = [v for v in viols if v["sig"] not in again]
+        viols = [v for v in viols if v["sig"] in again]
+        if dropped:
+            print("NOTE property=C16 %d violation(s) did not reproduce on a second execution and were dropped (e.g. %s)" % (
+                len(dropped), dropped[0]["sig"]))
     if leads and not viols and cases_override is None:
         raise MachineryError("model-level counterexample (%s) not reproduced on the real code: spec bug" % leads)
     p1 = sum(1 for r in trace if r["truth_instant"] > 0 and r["shape"] != "alerts")
